@@ -778,7 +778,7 @@ long d_string_replace_text_in_range(DString * d, size_t pos, size_t len, const c
 		} else {
 			stop = pos + len;
 
-			if (stop > d->currentStringLength) {
+			if (len > d->currentStringLength - pos) {
 				stop = d->currentStringLength;
 			}
 		}
